@@ -2,6 +2,7 @@ package rlwe
 
 import (
 	"bufio"
+	"bytes"
 	"encoding/json"
 	"fmt"
 	"io"
@@ -712,13 +713,19 @@ func (p *Parameters) ReadFrom(r io.Reader) (n int64, err error) {
 			return int64(n), fmt.Errorf("buffer.ReadAsUint64[int]: %w", err)
 		}
 
-		bytes := make([]byte, size)
+		// The body is accumulated as it arrives: a single Read may legally return
+		// fewer bytes than requested, and the announced size is not trusted for
+		// the allocation.
+		var body bytes.Buffer
 
-		var inc int
-		if inc, err = r.Read(bytes); err != nil {
-			return n + int64(inc), fmt.Errorf("io.Reader.Read: %w", err)
+		var inc int64
+		if inc, err = io.CopyN(&body, r, int64(size)); err != nil {
+			if err == io.EOF {
+				err = io.ErrUnexpectedEOF
+			}
+			return n + inc, fmt.Errorf("io.Reader.Read: %w", err)
 		}
-		return n + int64(inc), p.UnmarshalJSON(bytes)
+		return n + inc, p.UnmarshalJSON(body.Bytes())
 
 	default:
 		return p.ReadFrom(bufio.NewReader(r))
